@@ -183,6 +183,31 @@ func evalCond(v ssa.Value, a Assumption, depth int) (bool, bool) {
 				}
 			}
 		}
+	case *ssa.Call:
+		// a small predicate helper of the repository (`func (p *T) pinsX(opt *bool) bool { … }`): its result is known when
+		// every return that is feasible under the assumption evaluates to the same value. The assumption is shape-based
+		// (field loads, parameters every caller fills from a given field), so it applies inside the callee as it does here.
+		if f := x.Common().StaticCallee(); f != nil && depth < 4 && f.Pkg != nil && isRepoPath(f.Pkg.Pkg.Path()) && len(f.Blocks) > 0 && len(f.Blocks) <= 16 &&
+			f.Signature.Results().Len() == 1 && isBoolType(f.Signature.Results().At(0).Type()) {
+			first, res := true, false
+			for _, ret := range Returns(f) {
+				if !blockFeasible(ret.Block(), a, depth+1) || !reachableBlock(f, ret.Block(), a) {
+					continue
+				}
+				k, val := evalCond(ret.Results[0], a, depth+2)
+				if !k {
+					return false, false
+				}
+				if first {
+					res, first = val, false
+				} else if res != val {
+					return false, false
+				}
+			}
+			if !first {
+				return true, res
+			}
+		}
 	case *ssa.Phi:
 		// a phi produced by && / || lowering: evaluate each incoming value,
 		// pruning edges whose controlling branch contradicts the assumption.
@@ -875,4 +900,9 @@ func (e *Engine) mayWriteThroughArg(c ssa.CallInstruction, ai int) bool {
 		}
 	}
 	return false
+}
+
+func isBoolType(t types.Type) bool {
+	b, ok := t.Underlying().(*types.Basic)
+	return ok && b.Kind() == types.Bool
 }
